@@ -132,7 +132,8 @@ func buildProbe(t *rapid.T, x *c13Ctx, k int) *probe {
 	case 16:
 		return &probe{Name: "DATA on a stream the client has reset", Kind: "stream", Stream: x.reset, Codes: cSC, OrConn: cSC, Frames: []Frame{DataFrame(x.reset, []byte("late"), true, -1)}}
 	case 17:
-		return &probe{Name: "WINDOW_UPDATE increment 0 on a stream", Kind: "stream", Stream: x.open, Codes: cP, Frames: []Frame{WindowUpdateFrame(x.open, 0)}}
+		inc := []uint32{0, 0x80000000}[rapid.IntRange(0, 1).Draw(t, "wu0reserved")] // the reserved bit is not part of the increment
+		return &probe{Name: fmt.Sprintf("WINDOW_UPDATE increment 0 (word %#x) on a stream", inc), Kind: "stream", Stream: x.open, Codes: cP, Frames: []Frame{WindowUpdateFrame(x.open, inc)}}
 	case 18:
 		return &probe{Name: "WINDOW_UPDATE overflowing a stream window", Kind: "stream", Stream: x.half, Codes: cFC, Frames: []Frame{WindowUpdateFrame(x.half, 0x7fffffff)}}
 	case 19:
